@@ -617,155 +617,7 @@ func runC15(r *Run) {
 	})
 
 	r.rule("R11", "only `no lifetime` means `never expires`: the bundled memory storages (the session store's default) keep expiry 0 for entries that never expire; in their Set (or the helper that computes the expiry) the branch that leaves the expiry at 0 is taken on the lifetime argument itself being zero (or not positive) — not on its truncation to whole seconds, which is also 0 for every idle timeout below one second and would make such a session immortal (E1: the value the guard compares)", func() {
-		n := 0
-		for _, pk := range []string{"internal/storage/memory", "internal/memory"} {
-			set := r.Fn(pk, "(*Storage).Set")
-			for _, f := range append([]*ssa.Function{set}, helpersOf(set)...) {
-				var dur *ssa.Parameter
-				for _, p := range f.Params {
-					if strings.HasSuffix(p.Type().String(), "time.Duration") {
-						dur = p
-					}
-				}
-				if dur == nil {
-					continue
-				}
-				if f != set {
-					// the helper is handed Set's own lifetime
-					okArg := false
-					for _, c := range staticCallersOf(f) {
-						for k, a := range c.Call.Args {
-							if k < len(f.Params) && f.Params[k] == dur {
-								if pa, ok := stripValue(a).(*ssa.Parameter); ok && strings.HasSuffix(pa.Type().String(), "time.Duration") {
-									okArg = true
-								}
-							}
-						}
-					}
-					if !okArg {
-						continue
-					}
-				}
-				isInt := func(t types.Type) bool {
-					bt, ok := t.Underlying().(*types.Basic)
-					return ok && bt.Info()&types.IsInteger != 0
-				}
-				// blocks in which a non-zero expiry is computed, next to a zero alternative
-				type site struct {
-					blk *ssa.BasicBlock
-					at  ssa.Instruction
-				}
-				var sites []site
-				hasZeroRet := false
-				var nonZeroRets []*ssa.Return
-				for _, b := range f.Blocks {
-					for _, in := range b.Instrs {
-						switch x := in.(type) {
-						case *ssa.Phi:
-							if !isInt(x.Type()) {
-								continue
-							}
-							hasZero := false
-							for _, e := range x.Edges {
-								if isConstInt(e, 0) {
-									hasZero = true
-								}
-							}
-							if !hasZero {
-								continue
-							}
-							for k, e := range x.Edges {
-								if !isConstInt(e, 0) {
-									sites = append(sites, site{b.Preds[k], x})
-								}
-							}
-						case *ssa.Return:
-							if len(x.Results) == 1 && isInt(x.Results[0].Type()) {
-								if isConstInt(x.Results[0], 0) {
-									hasZeroRet = true
-								} else if _, isPhi := x.Results[0].(*ssa.Phi); !isPhi {
-									nonZeroRets = append(nonZeroRets, x)
-								}
-							}
-						}
-					}
-				}
-				if hasZeroRet {
-					for _, rt := range nonZeroRets {
-						sites = append(sites, site{rt.Block(), rt})
-					}
-				}
-				// the expiry written straight into the entry under the guard (the zero alternative is the field's zero value)
-				for _, b := range f.Blocks {
-					for _, in := range b.Instrs {
-						st, ok := in.(*ssa.Store)
-						if !ok {
-							continue
-						}
-						fa, ok := st.Addr.(*ssa.FieldAddr)
-						if !ok || !isInt(st.Val.Type()) {
-							continue
-						}
-						if bo, isSum := stripValue(st.Val).(*ssa.BinOp); !isSum || bo.Op != token.ADD {
-							continue // a phi or a helper's answer: judged where it is computed (the phi / return forms above)
-						}
-						if dependsOn(st.Val, func(v ssa.Value) bool {
-							c, ok := v.(*ssa.Call)
-							return ok && strings.HasSuffix(calleeName(&c.Call), ".Timestamp")
-						}) == nil {
-							continue
-						}
-						if _, isLocal := fa.X.(*ssa.Alloc); isLocal {
-							sites = append(sites, site{b, st})
-						}
-					}
-				}
-				for _, st := range sites {
-					n++
-					pb := st.blk
-					decided, okGuard := false, true
-					why := ""
-					for d := pb; d != nil && !decided; d = d.Idom() {
-						par := d.Idom()
-						if par == nil {
-							break
-						}
-						i, ok := par.Instrs[len(par.Instrs)-1].(*ssa.If)
-						if !ok {
-							continue
-						}
-						slot := -1
-						for sl, sc := range par.Succs {
-							if sc == d || dom(sc, pb) {
-								slot = sl
-							}
-						}
-						if slot < 0 {
-							continue
-						}
-						ci := decompose(i.Cond)
-						if ci.Const != nil && !isConstInt(ci.Const, 0) {
-							continue // a bound on the lifetime (the saturation of R14), not the `no lifetime` test
-						}
-						if cb, isCmp := i.Cond.(*ssa.BinOp); isCmp && ci.Const == nil && asConst(stripValue(cb.X)) == nil && asConst(stripValue(cb.Y)) == nil {
-							continue // two computed values compared (seconds against the room left): a bound as well
-						}
-						decided = true
-						if !(ci.Root == ssa.Value(dur) && ci.Const != nil && isConstInt(ci.Const, 0)) {
-							okGuard = false
-							why = "the guard at " + r.pos(i) + " does not compare the lifetime argument itself with 0"
-						}
-					}
-					if !decided {
-						okGuard = false
-						why = "no guard found around the computation of the expiry"
-					}
-					r.check(okGuard, pk+":"+short(f.String())+":never-expires-only-for-no-lifetime", r.pos(st.at), "the expiry stays 0 exactly when the lifetime argument is 0 (not positive)",
-						"the memory storage decides `never expires` on something else than the lifetime it was given ("+why+"): a lifetime below one second truncates to 0 whole seconds — a session saved with IdleTimeout 900ms (or SetIdleTimeout(time.Until(tokenExpiry)) near the end) never expires, its id keeps yielding the data")
-				}
-			}
-		}
-		r.atLeast("expiry choices in the memory storages", n, 2)
+		neverExpiresOnlyForNoLifetimeRule(r, []string{"internal/storage/memory", "internal/memory"}, 2, "a session saved with IdleTimeout 900ms (or SetIdleTimeout(time.Until(tokenExpiry)) near the end) never expires, its id keeps yielding the data")
 	})
 
 	r.rule("R14", "a long lifetime does not wrap into the past: the bundled memory storages keep the expiry as a 32-bit second count; where their Set (or its helper) adds the lifetime's seconds to the current timestamp, the sum is bounded — formed in a wider integer type and clamped, the lifetime (or its seconds) compared with a limit first, or the sum compared with the timestamp afterwards — otherwise a lifetime of about 80 years (`practically for ever`) wraps round modulo 2^32 and the entry is expired the moment it is stored (E1: a bounding comparison or min next to the sum)", func() {
@@ -786,7 +638,9 @@ func runC15(r *Run) {
 					c, ok := v.(*ssa.Call)
 					return ok && strings.HasSuffix(calleeName(&c.Call), ".Timestamp")
 				}
-				onDur := func(v ssa.Value) bool { return dependsOn(v, func(x ssa.Value) bool { return x == ssa.Value(dur) }) != nil }
+				onDur := func(v ssa.Value) bool {
+					return dependsOn(v, func(x ssa.Value) bool { return x == ssa.Value(dur) }) != nil
+				}
 				onStamp := func(v ssa.Value) bool { return dependsOn(v, isStamp) != nil }
 				nonZeroConst := func(v ssa.Value) bool {
 					c, ok := stripValue(v).(*ssa.Const)
@@ -995,4 +849,159 @@ func runC15(r *Run) {
 		})
 		r.atLeast("writes of the locals id key", n, 1)
 	})
+}
+
+// neverExpiresOnlyForNoLifetimeRule: in the Set of the bundled memory storages (or the helper that computes the
+// expiry) the branch that leaves the expiry at 0 (`never expires`) is taken on the lifetime argument itself being
+// zero or not positive — not on its truncation to whole seconds. Shared by C15 (sessions) and C16 (csrf tokens).
+func neverExpiresOnlyForNoLifetimeRule(r *Run, pkgs []string, floor int, consequence string) {
+	n := 0
+	for _, pk := range pkgs {
+		set := r.Fn(pk, "(*Storage).Set")
+		for _, f := range append([]*ssa.Function{set}, helpersOf(set)...) {
+			var dur *ssa.Parameter
+			for _, p := range f.Params {
+				if strings.HasSuffix(p.Type().String(), "time.Duration") {
+					dur = p
+				}
+			}
+			if dur == nil {
+				continue
+			}
+			if f != set {
+				// the helper is handed Set's own lifetime
+				okArg := false
+				for _, c := range staticCallersOf(f) {
+					for k, a := range c.Call.Args {
+						if k < len(f.Params) && f.Params[k] == dur {
+							if pa, ok := stripValue(a).(*ssa.Parameter); ok && strings.HasSuffix(pa.Type().String(), "time.Duration") {
+								okArg = true
+							}
+						}
+					}
+				}
+				if !okArg {
+					continue
+				}
+			}
+			isInt := func(t types.Type) bool {
+				bt, ok := t.Underlying().(*types.Basic)
+				return ok && bt.Info()&types.IsInteger != 0
+			}
+			// blocks in which a non-zero expiry is computed, next to a zero alternative
+			type site struct {
+				blk *ssa.BasicBlock
+				at  ssa.Instruction
+			}
+			var sites []site
+			hasZeroRet := false
+			var nonZeroRets []*ssa.Return
+			for _, b := range f.Blocks {
+				for _, in := range b.Instrs {
+					switch x := in.(type) {
+					case *ssa.Phi:
+						if !isInt(x.Type()) {
+							continue
+						}
+						hasZero := false
+						for _, e := range x.Edges {
+							if isConstInt(e, 0) {
+								hasZero = true
+							}
+						}
+						if !hasZero {
+							continue
+						}
+						for k, e := range x.Edges {
+							if !isConstInt(e, 0) {
+								sites = append(sites, site{b.Preds[k], x})
+							}
+						}
+					case *ssa.Return:
+						if len(x.Results) == 1 && isInt(x.Results[0].Type()) {
+							if isConstInt(x.Results[0], 0) {
+								hasZeroRet = true
+							} else if _, isPhi := x.Results[0].(*ssa.Phi); !isPhi {
+								nonZeroRets = append(nonZeroRets, x)
+							}
+						}
+					}
+				}
+			}
+			if hasZeroRet {
+				for _, rt := range nonZeroRets {
+					sites = append(sites, site{rt.Block(), rt})
+				}
+			}
+			// the expiry written straight into the entry under the guard (the zero alternative is the field's zero value)
+			for _, b := range f.Blocks {
+				for _, in := range b.Instrs {
+					st, ok := in.(*ssa.Store)
+					if !ok {
+						continue
+					}
+					fa, ok := st.Addr.(*ssa.FieldAddr)
+					if !ok || !isInt(st.Val.Type()) {
+						continue
+					}
+					if bo, isSum := stripValue(st.Val).(*ssa.BinOp); !isSum || bo.Op != token.ADD {
+						continue // a phi or a helper's answer: judged where it is computed (the phi / return forms above)
+					}
+					if dependsOn(st.Val, func(v ssa.Value) bool {
+						c, ok := v.(*ssa.Call)
+						return ok && strings.HasSuffix(calleeName(&c.Call), ".Timestamp")
+					}) == nil {
+						continue
+					}
+					if _, isLocal := fa.X.(*ssa.Alloc); isLocal {
+						sites = append(sites, site{b, st})
+					}
+				}
+			}
+			for _, st := range sites {
+				n++
+				pb := st.blk
+				decided, okGuard := false, true
+				why := ""
+				for d := pb; d != nil && !decided; d = d.Idom() {
+					par := d.Idom()
+					if par == nil {
+						break
+					}
+					i, ok := par.Instrs[len(par.Instrs)-1].(*ssa.If)
+					if !ok {
+						continue
+					}
+					slot := -1
+					for sl, sc := range par.Succs {
+						if sc == d || dom(sc, pb) {
+							slot = sl
+						}
+					}
+					if slot < 0 {
+						continue
+					}
+					ci := decompose(i.Cond)
+					if ci.Const != nil && !isConstInt(ci.Const, 0) {
+						continue // a bound on the lifetime (the saturation of R14), not the `no lifetime` test
+					}
+					if cb, isCmp := i.Cond.(*ssa.BinOp); isCmp && ci.Const == nil && asConst(stripValue(cb.X)) == nil && asConst(stripValue(cb.Y)) == nil {
+						continue // two computed values compared (seconds against the room left): a bound as well
+					}
+					decided = true
+					if !(ci.Root == ssa.Value(dur) && ci.Const != nil && isConstInt(ci.Const, 0)) {
+						okGuard = false
+						why = "the guard at " + r.pos(i) + " does not compare the lifetime argument itself with 0"
+					}
+				}
+				if !decided {
+					okGuard = false
+					why = "no guard found around the computation of the expiry"
+				}
+				r.check(okGuard, pk+":"+short(f.String())+":never-expires-only-for-no-lifetime", r.pos(st.at), "the expiry stays 0 exactly when the lifetime argument is 0 (not positive)",
+					"the memory storage decides `never expires` on something else than the lifetime it was given ("+why+"): a lifetime below one second truncates to 0 whole seconds — "+consequence)
+			}
+		}
+	}
+	r.atLeast("expiry choices in the memory storages", n, floor)
 }
